@@ -1,6 +1,7 @@
 package rules
 
 import (
+	"go/token"
 	"go/types"
 	"sort"
 	"strings"
@@ -377,7 +378,7 @@ func includesField(e *Env, v ssa.Value, field string, depth int) bool {
 
 func c12Wiring(e *Env, s *Sched) {
 	r := e.R
-	r.Rule("C12.wiring", "VF", "setupExec wires the log / stdout / stderr writers", 3)
+	r.Rule("C12.wiring", "VF", "setupExec wires the log / stdout / stderr writers", 4)
 	fn := e.nodeRoles().Wire
 	if fn == nil {
 		r.Unknown("the function wiring the executor's output", "-", "no Node method invokes SetStdout")
@@ -453,6 +454,118 @@ func c12Wiring(e *Env, s *Sched) {
 					okDefault = false
 				}
 			}
+		}
+	}
+	// stdout and stderr of the child: one writer value, or writers that share no sink.
+	// os/exec copies both streams in one goroutine only when Stdout and Stderr are the
+	// identical writer; two different writers over the same (unsynchronised) buffered
+	// writer are written by two goroutines at once and bytes are lost or garbled.
+	{
+		neg := map[token.Token]token.Token{token.EQL: token.NEQ, token.NEQ: token.EQL, token.LSS: token.GEQ, token.GEQ: token.LSS, token.GTR: token.LEQ, token.LEQ: token.GTR}
+		contradictory := func(a, b []ir.NLit) bool {
+			for _, x := range a {
+				for _, y := range b {
+					if x.Kind == "cmp" && y.Kind == "cmp" && sameOperand(x.X, y.X) && sameOperand(x.Y, y.Y) && neg[x.Op] == y.Op {
+						return true
+					}
+					if x.Kind == "val" && y.Kind == "val" && sameOperand(x.V, y.V) && x.Pol != y.Pol {
+						return true
+					}
+				}
+			}
+			return false
+		}
+		var sinks func(v ssa.Value, out map[string]bool, d int)
+		sinks = func(v ssa.Value, out map[string]bool, d int) {
+			v = ir.Resolve(v)
+			if d > 8 || ir.IsNilConst(v) {
+				return
+			}
+			switch x := v.(type) {
+			case *ssa.MakeInterface:
+				sinks(x.X, out, d+1)
+				return
+			case *ssa.ChangeInterface:
+				sinks(x.X, out, d+1)
+				return
+			case *ssa.Phi:
+				for _, ed := range x.Edges {
+					sinks(ed, out, d+1)
+				}
+				return
+			case *ssa.Call:
+				if ir.IsCallTo(&x.Call, "io.MultiWriter") {
+					if sl, ok := x.Call.Args[0].(*ssa.Slice); ok {
+						if al, ok := sl.X.(*ssa.Alloc); ok {
+							for _, ref := range *al.Referrers() {
+								if ia, ok := ref.(*ssa.IndexAddr); ok {
+									for _, r2 := range *ia.Referrers() {
+										if st, ok := r2.(*ssa.Store); ok {
+											sinks(st.Val, out, d+1)
+										}
+									}
+								}
+							}
+							return
+						}
+					}
+				}
+			}
+			if p, ok := e.C.PathOf(v); ok && len(p.Fields) > 0 {
+				out["field "+p.Dotted()] = true
+				return
+			}
+			out["value "+v.Name()+" in "+ShortFn(fn)] = true
+		}
+		for _, ci := range errs {
+			followed, _ := ir.Bypass(ci, nil, ir.PathQuery{
+				Stop: func(in ssa.Instruction) bool {
+					c, ok := in.(*ssa.Call)
+					return ok && c.Call.IsInvoke() && c.Call.Method.Name() == "SetStderr"
+				},
+				Bad: func(in ssa.Instruction) bool {
+					// a return that hands the executor out (the error returns do not)
+					rt, ok := in.(*ssa.Return)
+					if !ok || len(rt.Results) == 0 {
+						return false
+					}
+					for _, v := range RetVals(rt, 0) {
+						if !ir.IsNilConst(ir.Resolve(v)) {
+							return true
+						}
+					}
+					return false
+				}})
+			if followed == nil {
+				continue
+			}
+			yv := ci.Common().Args[0]
+			okPair := true
+			var facts []string
+			if ir.Resolve(yv) != ir.Resolve(arg) {
+				for _, xa := range altsOf(arg, e.DCS(last), 0) {
+					for _, ya := range altsOf(yv, e.DCS(ci), 0) {
+						if ir.IsNilConst(xa.v) || ir.IsNilConst(ya.v) || ir.Resolve(xa.v) == ir.Resolve(ya.v) || contradictory(xa.lits, ya.lits) {
+							continue
+						}
+						sx, sy := map[string]bool{}, map[string]bool{}
+						sinks(xa.v, sx, 0)
+						sinks(ya.v, sy, 0)
+						for k := range sx {
+							if sy[k] {
+								okPair = false
+								facts = append(facts, sprintf("stdout writer %s and stderr writer %s are different values over the same sink (%s)", e.C.Render(xa.v), e.C.Render(ya.v), k))
+							}
+						}
+					}
+				}
+			}
+			sort.Strings(facts)
+			if len(facts) > 4 {
+				facts = facts[:4]
+			}
+			r.Check(okPair, "setupExec: stdout and stderr are one writer or share no sink", e.InstrPos(ci),
+				"the executor gets two different writers that end in the same buffered writer: os/exec copies the two streams in two goroutines, which write the unsynchronised buffer concurrently - output is lost, duplicated or garbled in the step's log", facts...)
 		}
 	}
 	r.Check(okCfg && nCfg > 0, "setupExec: SetStderr gets the stderr: writer when configured", e.Pos(fn.Pos()), "the configured stderr: file never receives the step's stderr")
